@@ -105,10 +105,14 @@ def glue_for(name, f):
 
 
 LIB_TOML = """[package]
-name = "%(name)s"
+name = "%(pkg)s"
 version = "0.0.0"
 edition = "2021"
 publish = false
+
+[lib]
+name = "%(name)s"
+path = "src/lib.rs"
 
 [features]
 default = ["serde"]
@@ -158,6 +162,7 @@ class RustCorpus:
         self.descs = list(descs)
         self.dir = os.path.join(build.WORK, "rs", build._repo_tag(), key)
         self.target = os.path.join(build.WORK, "target-" + build._repo_tag() + "-rs")
+        self.tag = hashlib.sha1(key.encode()).hexdigest()[:10]
         self.dropped = {}   # name -> reason (generation panic / compile failure) — C10 events
         self.gen_events = []
         self.bins = {}
@@ -200,9 +205,11 @@ class RustCorpus:
             bname = "b%d" % bi
             members.append(bname)
             bdir = os.path.join(self.dir, bname)
+            # package names are unique per corpus: cargo hashes workspace members relative to
+            # the workspace root, so equal names in two workspaces sharing one target dir collide
             build._write_if_changed(os.path.join(bdir, "Cargo.toml"),
-                                    LIB_TOML % {"name": bname, "support": support,
-                                                "repo": os.path.abspath(build.REPO)})
+                                    LIB_TOML % {"name": bname, "pkg": "%s-%s" % (bname, self.tag),
+                                                "support": support, "repo": os.path.abspath(build.REPO)})
             lib = ["#![allow(warnings)]\n"]
             for d in batch:
                 build._write_if_changed(os.path.join(bdir, "src", d["name"] + "_gen.rs"), d["rust"])
@@ -211,10 +218,11 @@ class RustCorpus:
             build._write_if_changed(os.path.join(bdir, "src", "lib.rs"), "".join(lib))
         # binary
         bdir = os.path.join(self.dir, "harness")
-        deps = "".join('%s = { path = "../%s" }\n' % (m, m) for m in members)
-        build._write_if_changed(os.path.join(bdir, "Cargo.toml"),
-                                LIB_TOML % {"name": "harness", "support": support,
-                                            "repo": os.path.abspath(build.REPO)} + deps)
+        deps = "".join('%s = { package = "%s-%s", path = "../%s" }\n' % (m, m, self.tag, m) for m in members)
+        bin_toml = (LIB_TOML % {"name": "harness", "pkg": "harness-" + self.tag, "support": support,
+                                "repo": os.path.abspath(build.REPO)}).replace(
+            '[lib]\nname = "harness"\npath = "src/lib.rs"', '[[bin]]\nname = "harness-%s"\npath = "src/main.rs"' % self.tag)
+        build._write_if_changed(os.path.join(bdir, "Cargo.toml"), bin_toml + deps)
         arms = []
         for bi, batch in enumerate(batches):
             for d in batch:
@@ -240,14 +248,14 @@ class RustCorpus:
         assert flavour in ("dev", "release")
         for _ in range(max_rounds):
             cmd = ["cargo", "build", "--offline", "-q", "--manifest-path", os.path.join(self.dir, "Cargo.toml"),
-                   "--target-dir", self.target, "-p", "harness"]
+                   "--target-dir", self.target, "-p", "harness-" + self.tag]
             if flavour == "release":
                 cmd.append("--release")
             with build.Lock("build-rs-" + build._repo_tag()):
                 t0 = time.time()
                 rc, out, dt = build.run(cmd, check=False, timeout=3600)
                 if rc == 0:
-                    src = os.path.join(self.target, "debug" if flavour == "dev" else "release", "harness")
+                    src = os.path.join(self.target, "debug" if flavour == "dev" else "release", "harness-" + self.tag)
                     dst = os.path.join(self.dir, "harness-" + flavour)
                     tmp = dst + ".tmp%d" % os.getpid()
                     shutil.copy2(src, tmp)
